@@ -308,18 +308,35 @@ func jPrepop() {
 		func() any { return &T{B: &T{A: 2}} },
 		func() any { var x any = map[string]any{"A": (*int)(nil)}; return &x },
 	}
-	docs := []string{`1`, `"s"`, `null`, `true`, `{"A":2}`, `{"A":2,"B":{"A":3}}`, `{"B":null}`, `[1]`, `[null,null,null]`, `{"k":5,"A":{"A":6}}`, `{"A":"x"}`, `1.5`, `[]`, `{}`}
+	docs := []string{`{"A":2,"extra":1}`, `{"A":1,"B":{"A":3,"nope":{}}}`, `{"k":{"zz":1}}`, `1`, `"s"`, `null`, `true`, `{"A":2}`, `{"A":2,"B":{"A":3}}`, `{"B":null}`, `[1]`, `[null,null,null]`, `{"k":5,"A":{"A":6}}`, `{"A":"x"}`, `1.5`, `[]`, `{}`}
 	for i, m := range mk {
-		for _, d := range docs {
+		for pd := 0; pd < 4*len(docs); pd++ {
+			d, pass := docs[pd%len(docs)], pd/len(docs)
 			if !mine() {
 				skip()
 				continue
 			}
-			args := fmt.Sprintf("%d %s", i, hexs([]byte(d)))
+			args := fmt.Sprintf("%d %s %d", i, hexs([]byte(d)), pass)
 			var orc string
 			impl := guarded(func() string {
 				a, b := m(), m()
-				e1, e2 := json.Unmarshal([]byte(d), a), stdjson.Unmarshal([]byte(d), b)
+				// plain Unmarshal, or Decoders with UseNumber / DisallowUnknownFields (the options reach the value
+				// decoded through a pointer held in an interface too)
+				var e1, e2 error
+				if opt := (i + len(d) + pass) % 4; opt == 0 {
+					e1, e2 = json.Unmarshal([]byte(d), a), stdjson.Unmarshal([]byte(d), b)
+				} else {
+					sd, od := json.NewDecoder(strings.NewReader(d)), stdjson.NewDecoder(strings.NewReader(d))
+					if opt&1 != 0 {
+						sd.UseNumber()
+						od.UseNumber()
+					}
+					if opt&2 != 0 {
+						sd.DisallowUnknownFields()
+						od.DisallowUnknownFields()
+					}
+					e1, e2 = sd.Decode(a), od.Decode(b)
+				}
 				orc = "err"
 				if e2 == nil {
 					orc = "ok:" + deepString(reflect.ValueOf(b).Elem(), 0)
@@ -359,6 +376,33 @@ func c02() {
 			types = append(types, g.structTy(0))
 		}
 	}
+	// ,string string fields: the content of the OUTER string is itself a JSON string; escapes of the outer string can
+	// put control characters, quotes and backslashes into the inner one (valid only when the inner string escapes them)
+	for _, inner := range []string{`tab\there`, `tab\\there`, `a\u0001b`, `a\\u0001b`, `ok`, `q\\\"uote`, `q\"uote`, `\u00e9`, `\\u00e9`, `nl\nx`, `nl\\nx`, `\u0022`, `bs\\`, `bs\\\\`, ``, ` `, `\u007f`} {
+		for _, ty := range []string{"(struct (f C ,string str))", "(struct (f A - int) (f C ,string (ptr str)) (f Z - str))", "(map str (struct (f C x,string str)))"} {
+			d := `{"C":"\"` + inner + `\""}`
+			if strings.HasPrefix(ty, "(map") {
+				d = `{"k":{"x":"\"` + inner + `\""}}`
+			}
+			jUnmarshal(parseSx(ty), rndn(6), [][]byte{[]byte(d)})
+			jUnmarshal(parseSx(ty), 0, [][]byte{[]byte(" " + d + "\n")})
+		}
+	}
+	// map[string][]string: lists of exactly 9..11, 19..21 and 40 strings (the scratch slice of the specialised decoder
+	// starts at capacity 10 and doubles), followed by shorter ones, and a second document into the same map
+	for _, n := range []int{9, 10, 11, 19, 20, 21, 40} {
+		var el []string
+		for i := 0; i < n; i++ {
+			el = append(el, fmt.Sprintf(`"e%d"`, i))
+		}
+		big := "[" + strings.Join(el, ",") + "]"
+		tm := parseSx("(map str (slice str))")
+		for _, d := range []string{`{"first":` + big + `}`, `{"first":` + big + `,"second":["x","y"]}`, `{"a":["p"],"first":` + big + `,"z":[null],"zz":` + big + `}`} {
+			jUnmarshal(tm, rndn(6), [][]byte{[]byte(d)})
+			jUnmarshal(tm, 0, [][]byte{[]byte(d), []byte(`{"second":["q"]}`)})
+			jUnmarshal(parseSx("(struct (f M - (map str (slice str))) (f N - int))"), rndn(6), [][]byte{[]byte(`{"M":` + d + `,"N":1}`)})
+		}
+	}
 	for _, t := range types {
 		valid := docsFor(t, 3)
 		// single documents: valid ones, scalar probes, mutations
@@ -369,6 +413,9 @@ func c02() {
 		for k := 0; k < 4; k++ {
 			jUnmarshal(t, rndn(6), [][]byte{[]byte(pick(jScalarsDocs))})
 		}
+		// null is accepted for every type (also those that cannot be decoded otherwise: maps with unsupported key types)
+		jUnmarshal(t, rndn(6), [][]byte{[]byte("null")})
+		jUnmarshal(t, rndn(6), [][]byte{[]byte(" null ")})
 		// each string member value replaced by null, one at a time (typed decoders that do nothing on null must not
 		// carry scratch state from the previous member)
 		if len(valid) > 0 {
@@ -387,11 +434,34 @@ func c02() {
 				}
 			}
 		}
+		// integer map keys as strconv reads them (encoding/json hands the key text to strconv.ParseInt / ParseUint):
+		// leading zeroes, a plus sign, a minus zero, inner and outer white space, in front of every key in turn
+		if ts := sxString(t); len(valid) > 0 && (strings.Contains(ts, "(map i") || strings.Contains(ts, "(map u") || strings.Contains(ts, "(map int") || strings.Contains(ts, "IntKey") || strings.Contains(ts, "NameKey")) {
+			d := pick(valid)
+			locs := keyRE.FindAllIndex(d, -1)
+			for k := 0; k < 6 && len(locs) > 0; k++ {
+				l := locs[rndn(len(locs))]
+				pre := []string{"0", "00", "+", "-", " ", "+0"}[k]
+				jUnmarshal(t, rndn(6), [][]byte{append(append(append([]byte(nil), d[:l[0]+1]...), pre...), d[l[0]+1:]...)})
+			}
+		}
 		// quoted scalars (,string fields, Number, Time, Duration, integer and text map keys are near): white space inside
 		// the quotes
 		if len(valid) > 0 && (strings.Contains(sxString(t), ",string") || rndn(4) == 0) {
 			for _, d := range innerSpaceEach(pick(valid), 6) {
 				jUnmarshal(t, rndn(6), [][]byte{d})
+			}
+		}
+		// full document, then an emptier one, then a PARTIAL one (slices truncated by [] must not bring their old elements
+		// back when they grow again; maps and structs likewise)
+		if len(valid) > 0 {
+			for _, e := range []string{"[]", "{}", "null"} {
+				jUnmarshal(t, rndn(6), [][]byte{valid[0], []byte(e), thinDoc(valid[0])})
+			}
+			if locs := regexp.MustCompile(`\[[^\[\]]+\]`).FindAllIndex(valid[0], -1); len(locs) > 0 {
+				// the same inside the document: every innermost non-empty array emptied in the middle document
+				mid := regexp.MustCompile(`\[[^\[\]]+\]`).ReplaceAll(valid[0], []byte("[]"))
+				jUnmarshal(t, rndn(6), [][]byte{valid[0], mid, thinDoc(valid[0])})
 			}
 		}
 		// reset histories: a populated target followed by an emptier document of each shape (what must be cleared,
@@ -478,11 +548,13 @@ func docsContain(docs [][]byte, sub string) bool {
 // hasQuotedJSONNumber: some document contains a string token whose content is a JSON number
 var numberLikeRE = regexp.MustCompile(`"(-?[0-9](?:[^"\\]|\\.)*)"`)
 
+var strictNumberRE = regexp.MustCompile(`^-?(0|[1-9][0-9]*)(\.[0-9]+)?([eE][+-]?[0-9]+)?$`)
+
 // hasQuotedNumberLike: a string token whose content starts like a number (-?digit) and is not a JSON number
 func hasQuotedNumberLike(docs [][]byte) bool {
 	for _, d := range docs {
 		for _, m := range numberLikeRE.FindAllSubmatch(d, -1) {
-			if bytes.IndexByte(m[1], '\\') >= 0 || !stdjson.Valid(m[1]) {
+			if !strictNumberRE.Match(m[1]) { // white space around the literal counts too: Valid would accept it
 				return true
 			}
 		}
@@ -559,13 +631,58 @@ func nullifyElems(d []byte, n int) [][]byte {
 	return out
 }
 
+// thinDoc: the document with about half of the members of every object dropped and arrays cut to their first element
+// (what a later, PARTIAL document looks like: the members it does not mention must show what the emptier document in
+// between left, not what the first one had put there)
+func thinDoc(d []byte) []byte {
+	var v any
+	dec := stdjson.NewDecoder(bytes.NewReader(d))
+	dec.UseNumber()
+	if dec.Decode(&v) != nil {
+		return d
+	}
+	var thin func(x any, depth int) any
+	thin = func(x any, depth int) any {
+		switch t := x.(type) {
+		case map[string]any:
+			keys := make([]string, 0, len(t))
+			for k := range t {
+				keys = append(keys, k)
+			}
+			sort.Strings(keys)
+			o := map[string]any{}
+			for i, k := range keys {
+				if (i+depth)%2 == 1 || len(keys) == 1 {
+					o[k] = thin(t[k], depth+1)
+				}
+			}
+			return o
+		case []any:
+			if len(t) > 1 {
+				t = t[:1]
+			}
+			o := make([]any, len(t))
+			for i := range t {
+				o[i] = thin(t[i], depth+1)
+			}
+			return o
+		}
+		return x
+	}
+	b, err := stdjson.Marshal(thin(v, 0))
+	if err != nil {
+		return d
+	}
+	return b
+}
+
 // innerSpaceEach: white space put inside the quotes of each string member value in turn (end or start of the content)
 func innerSpaceEach(d []byte, n int) [][]byte {
 	locs := stringValueRE.FindAllIndex(d, -1)
 	var out [][]byte
 	for i := len(locs) - 1; i >= 0 && len(out) < n; i-- {
 		l := locs[i]
-		ws := pick([]string{" ", "  ", `\t`, `\n`, `\r`, ` \r`})
+		ws := pick([]string{" ", "  ", `\t`, `\n`, `\r`, ` \r`, "\t", "\n", "\r", "\r\n\t"}) // the last four are RAW control bytes: not JSON inside a string
 		at := l[1] - 1
 		if rndn(4) == 0 {
 			at = l[0] + 2
